@@ -152,7 +152,7 @@ def year_ext(j):
     return "0" + s[1:3] if j >= 100 else "9" + s
 
 
-def write_weather(root, folder, layout, fcode, series, numheader=None, skip_years=()):
+def write_weather(root, folder, layout, fcode, series, numheader=None, skip_years=(), windhi=None):
     """layout 0: one file per year 'MET_<fcode>.<ext>' (day-of-year column); 1: '<fcode>.csv' (iso-date);
     2: '<fcode>.w6d' (@YYYYJJJ, no tavg column).  Returns the config keys selecting it."""
     wdir = os.path.join(root, "weather", folder)
@@ -167,7 +167,7 @@ def write_weather(root, folder, layout, fcode, series, numheader=None, skip_year
                 continue
             with open(os.path.join(wdir, "MET_%s.%s" % (fcode, year_ext(y - 1900))), "w") as f:
                 hdr = ["tavg;tmin;tmax;ET0;relhumid;vapp14;wind;sundu;globrad;precip;jday",
-                       "C_deg;C_deg;C_deg;mm;%;mm_Hg;m/s;hours;MJ m-2;mm;", "55;2;-----;-----;-----;-----;-----;-----;------;-- -;-"]
+                       "C_deg;C_deg;C_deg;mm;%;mm_Hg;m/s;hours;MJ m-2;mm;", "55;%s;-----;-----;-----;-----;-----;-----;------;-- -;-" % (windhi or "2")]
                 if nh != 3:
                     hdr = hdr[:nh]
                 f.write("\n".join(hdr) + "\n")
@@ -176,9 +176,10 @@ def write_weather(root, folder, layout, fcode, series, numheader=None, skip_year
                                       r["prec"], str(r.get("jday", doy(d)))]) + "\n")
         return {"WeatherFile": "'MET_%s.'", "WeatherFileFormat": 0, "WeatherNumHeader": nh}
     if layout == 1:
-        nh = 2 if numheader is None else numheader
+        nh = (3 if windhi else 2) if numheader is None else numheader
         with open(os.path.join(wdir, "%s.csv" % fcode), "w") as f:
-            hdr = ["iso-date,tmin,tavg,tmax,precip,globrad,wind,relhumid", "-,C,C,C,mm,MJ m-2,m s-1,%", "# extra header line"]
+            hdr = ["iso-date,tmin,tavg,tmax,precip,globrad,wind,relhumid", "-,C,C,C,mm,MJ m-2,m s-1,%",
+                   ("73;%s;-----" % windhi) if windhi else "# extra header line"]
             f.write("\n".join(hdr[:nh]) + "\n")
             for d, r in series:
                 f.write(",".join([d.isoformat(), r["tmin"], r["tavg"], r["tmax"], r["prec"], r["rad"], r["wind"], r["rh"]]) + "\n")
